@@ -6,7 +6,7 @@ from typing import Dict, List, Optional, Set, Tuple
 
 from .core import AnalysisError, Report
 from .effects import Effects, FuncId
-from .prog import (ClassInfo, ModuleInfo, Program, bind_call, dotted, enclosing, func_params, guards_of,
+from .prog import (ClassInfo, ModuleInfo, Program, bind_call, dotted, enclosing, func_params, guards_of, inline_locals,
                    local_assignments, parent, unparse, walk_no_nested)
 from .rules_alias import reaching_defs
 from .rules_flow import effects_engine
@@ -1619,3 +1619,55 @@ def rule_simultaneous_substitution(ctx, rep: Report, rid="S12"):
                         f"{mi.rel}:{loop.lineno}")
     if n < 1:
         raise AnalysisError(f"{rep.prop}/{rid}: no walk over template arguments found in the instantiator")
+
+
+def rule_positions_of_the_list_itself(ctx, rep: Report, rid="P7", package=TI):
+    """Template parameters and their arguments travel in parallel lists (typenames / instantiations): a position found in
+    one is used as a position in the other.  That is only right when the position was taken in the list itself:
+    `enumerate(<list>)` / `<list>.index(x)` on the list as it was handed in, not on a sorted, reversed, filtered,
+    de-duplicated or sliced copy of it (whose positions differ as soon as the order of the parameters does - a type scoped
+    in one parameter is then instantiated with another parameter's argument, depending on how the parameters are *named*)."""
+    prog = ctx.prog
+    n = 0
+    REORDER = {"sorted", "reversed", "set", "frozenset", "filter"}
+
+    def derived(fn, e) -> Optional[str]:
+        e2 = inline_locals(fn, e) if fn is not None else e
+        for x in ast.walk(e2):
+            if isinstance(x, ast.Call) and isinstance(x.func, ast.Name) and x.func.id in REORDER:
+                return f"{x.func.id}(...)"
+            if isinstance(x, (ast.ListComp, ast.GeneratorExp, ast.SetComp)) and any(g.ifs for g in x.generators):
+                return "a filtered comprehension"
+            if isinstance(x, ast.Subscript) and isinstance(x.slice, ast.Slice):
+                return f"the slice [{unparse(x.slice)}]"
+            if isinstance(x, ast.Call) and isinstance(x.func, ast.Attribute) and x.func.attr in ("keys", "values", "items") and False:
+                return None
+        return None
+    for mi in sorted(prog.modules.values(), key=lambda m: m.rel):
+        if not mi.rel.startswith(package):
+            continue
+        for c in ast.walk(mi.tree):
+            if not isinstance(c, ast.Call):
+                continue
+            fn = enclosing(c, ast.FunctionDef)
+            src, idx_used = None, True
+            if isinstance(c.func, ast.Name) and c.func.id == "enumerate" and c.args:
+                src = c.args[0]
+                loop = parent(c)
+                tg = loop.target if isinstance(loop, (ast.For, ast.comprehension)) and loop.iter is c else None
+                if isinstance(tg, ast.Tuple) and tg.elts and isinstance(tg.elts[0], ast.Name):
+                    iv = tg.elts[0].id
+                    scope_ = loop if isinstance(loop, ast.For) else parent(loop)
+                    idx_used = iv != "_" and any(isinstance(x, ast.Name) and x.id == iv and isinstance(x.ctx, ast.Load) for x in ast.walk(scope_))
+            elif isinstance(c.func, ast.Attribute) and c.func.attr == "index" and len(c.args) == 1:
+                src = c.func.value
+            if src is None:
+                continue
+            n += 1
+            why = derived(fn, src) if idx_used else None
+            rep.add(rid, f"position:{fn.name if fn else '?'}:{unparse(c)[:60]}", why is None,
+                    f"the position is taken in {why} of `{unparse(src)[:50]}`, not in the list itself: used on the parallel list (instantiations for "
+                    f"typenames) it selects another parameter's argument whenever the copy is ordered differently", f"{mi.rel}:{c.lineno}",
+                    nontrivial=idx_used)
+    if n < 1:
+        raise AnalysisError(f"{rep.prop}/{rid}: no enumerate()/index() site found in {package}")
